@@ -8,6 +8,7 @@ ASSUME = [
     "'-5' for an unsigned option is accepted (and wrapped) by boost and is not counted as malformed",
     "compatibility-only options (HaissinskiIterations, InitialDistParam, RotationType, SaveSourceMap) must leave every other getter unchanged; their own storage getters are not compared",
     "values are compared exactly (hex float representation of the getter results against the value the oracle parsed from the same token with strtof/strtod semantics of printf %.9g/%.17g round trips)",
+    "file-name part: '/dev/null' as a file name means 'none' (documented for --config, --InitialDistFile, --output); the first record of a run started from a stored distribution equals that stored record's profile to 1e-5",
     "process part: unknown option / malformed value must give a message and a failure status; a missing config file a message; none may log 'Starting the simulation'",
 ]
 
@@ -130,6 +131,71 @@ def effective_part(ctx):
                           dict(w, reported=got, unit=unit, expected=want))
 
 
+def filename_part(ctx):
+    """File-name options as they take effect in the program: a name (or the documented '/dev/null' = none) on the command line beats the
+    one in a loaded config file, for the start distribution and for the results file."""
+    import numpy as np
+    sdir = os.path.join(ctx.scratch(), "fn")
+    os.makedirs(sdir, exist_ok=True)
+    xdg = os.path.join(sdir, "xdg")
+    base = dict(GridSize=32, rotations=0.05, StepsPerTs=40, VacuumGap=0, outstep=1)
+    # a start file that is unmistakably not the built-in start: a run with a zoomed start distribution, stored
+    r0 = prog.run_inovesa("rel", dict(base, output="start.h5", SavePhaseSpace=1, InitialDistZoom=0.5), sdir, xdg, timeout=120)
+    rf = prog.run_inovesa("rel", dict(base, output="fresh.h5"), sdir, xdg, timeout=120)
+    if r0["rc"] != 0 or rf["rc"] != 0:
+        ctx.inconcl("file-name part: preparatory runs failed: %s" % (r0["err"] + rf["err"])[-200:])
+        return
+    fresh0 = prog.H5(os.path.join(sdir, "fresh.h5"))["/BunchProfile/data"][0]
+    zoom0 = prog.H5(os.path.join(sdir, "start.h5"))["/BunchProfile/data"][-1]       # (the default start record is the last one stored)
+    start = os.path.join(sdir, "start.h5")
+    cases = [
+        ("start_from_cfg", "InitialDistFile=%s\n" % start, {}, "zoom", "o.h5"),
+        ("start_cli_devnull_over_cfg", "InitialDistFile=%s\n" % start, {"InitialDistFile": "/dev/null"}, "fresh", "o.h5"),
+        ("start_cli_devnull_plain_cfg", "GridSize=32\n", {"InitialDistFile": "/dev/null"}, "fresh", "o.h5"),
+        ("start_cfg_devnull", "InitialDistFile=/dev/null\n", {}, "fresh", "o.h5"),
+        ("start_cli_over_cfg_devnull", "InitialDistFile=/dev/null\n", {"InitialDistFile": start}, "zoom", "o.h5"),
+        ("output_cli_over_cfg", "output=fromcfg.h5\n", {"output": "fromcli.h5"}, "fresh", "fromcli.h5"),
+        ("output_from_cfg", "output=fromcfg.h5\n", {"output": None}, "fresh", "fromcfg.h5"),
+    ]
+
+    def one(ic):
+        i, (name, cfgtext, cli, want, outname) = ic
+        d = os.path.join(sdir, "f%02d" % i)
+        os.makedirs(d, exist_ok=True)
+        with open(os.path.join(d, "in.cfg"), "w") as fh:
+            fh.write(cfgtext)
+        o = dict(base, output="o.h5")
+        for k, v in cli.items():
+            if v is None:
+                o.pop(k, None)
+            else:
+                o[k] = v
+        res = prog.run_inovesa("rel", o, d, xdg, timeout=120, config="in.cfg")
+        return dict(name=name, res=res, d=d, want=want, outname=outname, cfgtext=cfgtext)
+
+    for o in core.pmap(one, list(enumerate(cases))):
+        res = o["res"]
+        ctx.case("filename:" + o["name"])
+        ctx.ev("file_name_precedence_runs")
+        w = dict(case=o["name"], config=o["cfgtext"], cmd=" ".join(res["argv"]), stdout=res["out"][-300:], stderr=res["err"][-300:])
+        bad = prog.program_outcome_key(res)
+        f = os.path.join(o["d"], o["outname"])
+        others = [x for x in ("o.h5", "fromcfg.h5", "fromcli.h5") if x != o["outname"] and os.path.exists(os.path.join(o["d"], x))]
+        if bad or res["rc"] != 0 or "Starting the simulation" not in res["out"] or not os.path.exists(f):
+            ctx.violation("C20:effective:filename:" + o["name"] + ":not_run", "a valid combination of file names on the command line and in the config file does not run / does not write the results file named with the highest precedence", dict(w, results_file_exists=os.path.exists(f)))
+            continue
+        if others:
+            ctx.violation("C20:effective:filename:" + o["name"] + ":other_file", "a results file under the name with the lower precedence was written", dict(w, files=others))
+            continue
+        got0 = prog.H5(f)["/BunchProfile/data"][0]
+        ref = fresh0 if o["want"] == "fresh" else zoom0
+        oth = zoom0 if o["want"] == "fresh" else fresh0
+        e_ref = float(np.max(np.abs(got0.astype(float) - ref)) / np.max(np.abs(ref)))
+        e_oth = float(np.max(np.abs(got0.astype(float) - oth)) / np.max(np.abs(oth)))
+        if not (e_ref < 1e-5 and e_oth > 1e-2):
+            ctx.violation("C20:effective:filename:" + o["name"] + ":wrong_start", "the run did not start from the distribution named with the highest precedence", dict(w, dev_from_expected=e_ref, dev_from_other=e_oth))
+
+
 def run(ctx):
     ctx.assumptions = ASSUME
     ctx.rule = ("API: every option independently placed on the command line / in the config file / in both (different values) / nowhere, with random legal values (incl. values needing 9/17 digits, 1-5 bunch currents), "
@@ -139,4 +205,5 @@ def run(ctx):
     core.run_harness(ctx, "c20", 4000 if th else 320, variant="asan", args=["--mode", "c20"])
     process_part(ctx)
     effective_part(ctx)
-    ctx.min_events = {"parses": 2000, "option_values_checked": 100000, "cli_vs_config_conflicts_checked": 3000, "alias_uses_checked": 500, "process_runs": 30, "effective_values_checked_in_program_runs": 4}
+    filename_part(ctx)
+    ctx.min_events = {"file_name_precedence_runs": 6, "parses": 2000, "option_values_checked": 100000, "cli_vs_config_conflicts_checked": 3000, "alias_uses_checked": 500, "process_runs": 30, "effective_values_checked_in_program_runs": 4}
